@@ -74,21 +74,29 @@ theorem fields_restore_extract {V : Type} (env dflt : String → V) :
 example : restoreF (extractF (fun f => f ++ "!") (fun _ => "")).1 (extractF (fun f => f ++ "!") (fun _ => "")).2
     "variables" = "variables!" := by decide
 
-/-- What `Process::fork_from` copies in the code as it is (generated `processForkMap`): the fd table, the
-    signal dispositions and the blocked mask of the child process are the parent's.
-
-    Full statement (what POSIX `fork` requires for the fields the property names), NOT provable for the
-    current code: `∀ f ∈ ["fds", "cwd", "umask", "dispositions", "blocked_signals"], isCopied implCopied f`.
-    `cwd` and `umask` are missing from `fork_from`: the child starts with `cwd = ""` and `umask = 0o644`
-    (candidate defect, exhibited by the sweep: `P:umask 027; K:paren`). -/
-theorem child_process_copy_partial (ppid : Nat) (p : Proc) :
-    (Proc.forkFrom implCopied ppid p).fds = p.fds
+/-- ★ `Process::fork_from` in the code as it is (the *generated* `processForkMap`) copies every per-process
+    field the property names: the child's fd table, working directory, umask, signal dispositions and blocked
+    mask are the parent's — i.e. the code's copy list covers the Spec's (`specCopied`).
+    (Before /repo commit 6f37a10 `cwd` and `umask` were missing and only a `_partial` version held.) -/
+theorem child_process_copy (ppid : Nat) (p : Proc) :
+    (∀ f ∈ specCopied, isCopied implCopied f.1 = true)
+    ∧ (Proc.forkFrom implCopied ppid p).fds = p.fds
+    ∧ (Proc.forkFrom implCopied ppid p).cwd = p.cwd
+    ∧ (Proc.forkFrom implCopied ppid p).umask = p.umask
     ∧ (Proc.forkFrom implCopied ppid p).sys.disp = p.sys.disp
     ∧ (Proc.forkFrom implCopied ppid p).sys.blocked = p.sys.blocked := by
+  have h0 : ∀ f ∈ specCopied, isCopied implCopied f.1 = true := by decide
   have h1 : isCopied implCopied "fds" = true := by decide
   have h2 : isCopied implCopied "dispositions" = true := by decide
   have h3 : isCopied implCopied "blocked_signals" = true := by decide
-  simp [Proc.forkFrom, h1, h2, h3]
+  have h4 : isCopied implCopied "cwd" = true := by decide
+  have h5 : isCopied implCopied "umask" = true := by decide
+  exact ⟨h0, by simp [Proc.forkFrom, h1, h2, h3, h4, h5]⟩
+
+/-- the child of a parent in `/d1` with umask 027 -/
+example : (Proc.forkFrom implCopied 2 { initialEnv.system with cwd := "/d1", umask := "027" }).cwd = "/d1"
+    ∧ (Proc.forkFrom implCopied 2 { initialEnv.system with cwd := "/d1", umask := "027" }).umask = "027" := by
+  decide
 
 /-- With everything POSIX names copied (`specCopied`, the Spec's fork) the child process is the parent's. -/
 theorem child_process_copy_spec (ppid : Nat) (p : Proc) :
